@@ -182,3 +182,24 @@ pub proof fn lemma_step_from_contract(w: World, cfg: Config, cached: int)
     }
 }
 }
+verus! {
+// ---- C05.where at tree level: what a --check pass reports, file by file, in discovery order ------------------------
+pub open spec fn file_report(fs: Map<Seq<char>, Seq<u8>>, cfg: Config, p: Seq<char>) -> Seq<Event> {
+    if readable(p) {
+        report_lines(p, found(fs[p], cfg), found(fs[p], cfg).len() as int)
+            .push(Event { tag: 6, strs: seq![p], nums: seq![n_missing_all(found(fs[p], cfg))] })
+    } else {
+        seq![Event { tag: 4, strs: seq![], nums: seq![] }]       // [ref: 4] Failed to read file
+    }
+}
+pub open spec fn tree_report(files: Seq<Seq<char>>, fs: Map<Seq<char>, Seq<u8>>, cfg: Config, k: int) -> Seq<Event>
+    decreases k
+{
+    if k <= 0 { Seq::empty() } else { tree_report(files, fs, cfg, k - 1) + file_report(fs, cfg, files[k - 1]) }
+}
+pub proof fn lemma_tree_report_step(base: Seq<Event>, files: Seq<Seq<char>>, fs: Map<Seq<char>, Seq<u8>>, cfg: Config, k: int)
+    requires 0 < k
+    ensures base + tree_report(files, fs, cfg, k) =~= (base + tree_report(files, fs, cfg, k - 1)) + file_report(fs, cfg, files[k - 1])
+{
+}
+}
